@@ -283,6 +283,21 @@ def run_c06(ctx):
     nfault = sum(1 for r in recs if r["_fault_fired"])
     verdict = lc.validate(ctx, recs)
     judge(ctx, "C06", recs, scs, verdict)
+    # lenient error handlers handed through mutate(): whenever the save then fails, the input must be intact
+    eres = core.pmap(lc.run_errors_scenario, lc.errors_jobs(), chunk=8)
+    for r in eres:
+        ctx.traces += 1
+        ctx.evaluations += 1
+        if r["exc"] and not r["inputsame"]:
+            ctx.violation("C06:input-damaged-although-save-failed:errors=" + r["handler"],
+                          "mutate(errors=%r) on a %s %s file (%s filesystem, backup %s) raised %s and the input file no longer holds its original bytes" % (
+                              r["handler"], r["enc"], r["ext"], r["fs"], r["bak"], r["exc"]), {"mode": "errors", "job": r})
+        elif r["exc"] and not r["baksame"]:
+            ctx.violation("C06:backup-incomplete-although-save-failed:errors=" + r["handler"],
+                          "mutate(errors=%r) on a %s %s file (%s filesystem) raised %s and the backup written does not hold the original" % (
+                              r["handler"], r["enc"], r["ext"], r["fs"], r["exc"]), {"mode": "errors", "job": r})
+    ctx.notes["runs_with_a_lenient_error_handler"] = len(eres)
+    ctx.notes["of_which_the_save_failed"] = sum(1 for r in eres if r["exc"])
     ctx.notes["c2s_runs"] = len(recs)
     ctx.notes["fault_points_enumerated"] = sum(1 for sc in scs.values() if sc.get("fault"))
     ctx.notes["fault_points_that_fired"] = nfault
